@@ -989,7 +989,15 @@ func ctlAcross(fn *ssa.Function, callee string) [][]ctlOutcome {
 	ctlOf := func(b *ssa.BasicBlock) []ctlOutcome {
 		var cs []ctlOutcome
 		for _, cc := range controlConds(b) {
-			cs = append(cs, ctlOutcome{an.Atoms(cc.If.Cond), cc.Truth})
+			cond, truth := cc.If.Cond, cc.Truth
+			for {
+				u, isNot := cond.(*ssa.UnOp)
+				if !isNot || u.Op != token.NOT {
+					break
+				}
+				cond, truth = u.X, !truth // "case !x:" keeps the negation as an instruction
+			}
+			cs = append(cs, ctlOutcome{an.Atoms(cond), truth})
 		}
 		return cs
 	}
@@ -1422,10 +1430,14 @@ func c16EvictOnlyWritten(r *core.Run, p *core.Program, rule string) {
 // reads or writes at the append position corrupts the record being appended next / after a crash).
 func c16FlagUpdateOrder(r *core.Run, p *core.Program, rule string) {
 	sf := p.Func("lib/chain.(*BlockDB).setBlockFlag")
-	c19Order(r, p, rule, "flag-update/restores-position", sf, []c19Ev{
-		evCall("remember the append position", "(*os.File).Seek", -1),
+	// two orders, checked separately: the positional read and write do not move the file position, so where the
+	// position is remembered relative to them does not matter (a b5 edit read the byte first)
+	c19Order(r, p, rule, "flag-update/reads-then-writes-own-byte", sf, []c19Ev{
 		evCall("read the flag byte", "(*os.File).ReadAt", 2, "field:lib/chain.oneBl.ipos"),
 		evCall("write the flag byte", "(*os.File).WriteAt", 2, "field:lib/chain.oneBl.ipos"),
+	})
+	c19Order(r, p, rule, "flag-update/restores-position", sf, []c19Ev{
+		evCall("remember the append position", "(*os.File).Seek", -1),
 		{"restore the append position", func(i ssa.Instruction) bool {
 			c, ok := i.(ssa.CallInstruction)
 			if !ok || an.CallName(c) != "(*os.File).Seek" {
